@@ -11,7 +11,7 @@ from harness import tlc
 from harness.common import Machinery
 from checks import c05, c05_gen
 
-ENUM_CFG = ("INIT C07EnumInit\nNEXT MachineNext\nCONSTRAINT C07EnumEmit\nINVARIANT Invariants\nINVARIANT EnumTerminates\n"
+ENUM_CFG = ("INIT C07EnumInit\nNEXT C07LongNext\nCONSTRAINT C07EnumEmit\nINVARIANT Invariants\nINVARIANT EnumTerminates\n"
             "PROPERTY LogAppendOnly\nPROPERTY CatchGetsThrown\nCHECK_DEADLOCK FALSE\n")
 SHIFT_CFG = "INIT JudgeInit\nNEXT MachineNext\nCONSTRAINT ShiftEmit\nINVARIANT Invariants\nCHECK_DEADLOCK FALSE\n"
 
